@@ -375,32 +375,7 @@ pub fn check(rep: &Reporter) {
 		par_for(rep, fam.len(), 8, srv::rt, |i, rt, local| {
 			let (g, msg) = &fam[i];
 			let _e = rt.enter();
-			let mut attempt = 0;
-			loop {
-				attempt += 1;
-				let log: srv::InvLog = Default::default();
-				let r = rt.block_on(tcp_roundtrips(msg, log));
-				match r {
-					Ok((h, w)) => {
-						let mut h = Some(h);
-						let mut w = Some(w);
-						run_case_with(rep, local, g, msg, BatchRequestConfig::Unlimited, "tcp:", |t| match t {
-							Transport::Http => h.take().unwrap(),
-							Transport::Ws => w.take().unwrap(),
-						});
-						break;
-					}
-					// operating-system level trouble (ports, descriptors) is not a verdict: retry, then report as machinery
-					Err(e) if attempt < 3 => {
-						let _ = e;
-						std::thread::sleep(std::time::Duration::from_millis(50 * attempt));
-					}
-					Err(e) => {
-						rep.machinery_error(format!("SRV-TCP leg: {e} (message {:?})", String::from_utf8_lossy(msg)));
-						break;
-					}
-				}
-			}
+			tcp_case(rep, local, rt, g, msg, BatchRequestConfig::Unlimited);
 		});
 	}
 	// SCHED leg (configuration: message_buffer_capacity 1–2, pipelined calls)
@@ -505,13 +480,13 @@ fn tok_len(m: &[u8]) -> usize {
 /// One message through a real `Server` over loopback: HTTP (message, then the sentinel on the same keep-alive
 /// connection) and WebSocket (message, sentinel; after the sentinel's reply the server is stopped and everything until
 /// the close is collected).
-async fn tcp_roundtrips(msg: &[u8], log: srv::InvLog) -> Result<(srvref::Observed, srvref::Observed), String> {
+pub async fn tcp_roundtrips(msg: &[u8], log: srv::InvLog, cfg: jsonrpsee_server::ServerConfig) -> Result<(srvref::Observed, srvref::Observed), String> {
 	use tokio::io::AsyncWriteExt;
 	use tokio_util::compat::TokioAsyncReadCompatExt;
 	let listener = std::net::TcpListener::bind("127.0.0.1:0").map_err(|e| format!("bind: {e}"))?;
 	listener.set_nonblocking(true).map_err(|e| e.to_string())?;
 	let addr = listener.local_addr().map_err(|e| e.to_string())?;
-	let server = jsonrpsee_server::Server::builder().set_config(srv::cfg_builder().build()).build_from_tcp(listener).map_err(|e| format!("build: {e}"))?;
+	let server = jsonrpsee_server::Server::builder().set_config(cfg).build_from_tcp(listener).map_err(|e| format!("build: {e}"))?;
 	let handle = server.start(srv::std_module(log.clone()));
 	// ---- HTTP
 	let mut http = srvref::Observed { replies: vec![], notifications: vec![], handlers: vec![], sentinel_ok: false, http_status: None, problem: None };
@@ -677,5 +652,33 @@ async fn read_response(io: &mut tokio::net::TcpStream) -> Option<(u16, Vec<u8>)>
 			return None;
 		}
 		buf.extend_from_slice(&tmp[..n]);
+	}
+}
+
+
+/// Deliver `msg` through a real `Server` over loopback (with this batch configuration) and judge it like any other case.
+pub fn tcp_case(rep: &Reporter, local: &mut Local, rt: &tokio::runtime::Runtime, gen_name: &str, msg: &[u8], batch: BatchRequestConfig) {
+	let mut attempt = 0;
+	loop {
+		attempt += 1;
+		let log: srv::InvLog = Default::default();
+		let r = rt.block_on(tcp_roundtrips(msg, log, srv::cfg_builder().set_batch_request_config(batch).build()));
+		match r {
+			Ok((h, w)) => {
+				let mut h = Some(h);
+				let mut w = Some(w);
+				run_case_with(rep, local, gen_name, msg, batch, "tcp:", |t| match t {
+					Transport::Http => h.take().unwrap(),
+					Transport::Ws => w.take().unwrap(),
+				});
+				break;
+			}
+			// operating-system level trouble (ports, descriptors) is not a verdict: retry, then report as machinery
+			Err(_) if attempt < 3 => std::thread::sleep(std::time::Duration::from_millis(50 * attempt)),
+			Err(e) => {
+				rep.machinery_error(format!("SRV-TCP leg: {e} (message {:?})", String::from_utf8_lossy(msg)));
+				break;
+			}
+		}
 	}
 }
